@@ -7,13 +7,28 @@ use ndarray::Array1;
 use num_traits::{One, Zero};
 use serde_json::json;
 
+/// The same logical sequence through four memory layouts ("for all vectors": the functions take array VIEWS): owned and contiguous,
+/// a reversed view of reversed storage (stride -1), every second element of padded storage (stride 2), and stride -2.
+fn with_layout<T: Clone, R>(xs: &[T], filler: T, layout: usize, f: impl FnOnce(ndarray::ArrayView1<T>) -> R) -> R {
+    use ndarray::s;
+    match layout % 4 {
+        0 => f(Array1::from_vec(xs.to_vec()).view()),
+        1 => { let st = Array1::from_iter(xs.iter().rev().cloned()); f(st.slice(s![..;-1])) }
+        2 => { let st = Array1::from_iter(xs.iter().flat_map(|x| [x.clone(), filler.clone()])); f(st.slice(s![..;2])) }
+        _ => { let st = Array1::from_iter(xs.iter().rev().flat_map(|x| [filler.clone(), x.clone()])); f(st.slice(s![..;-2])) }
+    }
+}
+const LAYOUTS: [&str; 4] = ["owned", "stride -1", "stride 2", "stride -2"];
+
 fn il_events(out: &mut Out, c: usize, r: usize, back: bool) {
     let n = c * r;
     let tags: Vec<i64> = (1..=n as i64).collect();
     // u32 elements
     out.new_case();
-    match guarded(|| Interleaver::new(c, back).interleave(&Array1::from_iter(tags.iter().map(|&t| t as u32))).to_vec()) {
-        Ok(y) => out.ev("Il", "ok", json!({"C": c, "back": back, "ty": "u32", "x": tags, "y": y})),
+    let lay = c + 2 * r + back as usize;
+    let t32: Vec<u32> = tags.iter().map(|&t| t as u32).collect();
+    match guarded(|| with_layout(&t32, 0u32, lay, |v| Interleaver::new(c, back).interleave(&v).to_vec())) {
+        Ok(y) => out.ev("Il", "ok", json!({"C": c, "back": back, "ty": "u32", "layout": LAYOUTS[lay % 4], "x": tags, "y": y})),
         Err(m) => out.ev("Il", "panic", json!({"C": c, "back": back, "ty": "u32", "x": tags, "msg": m})),
     }
     // f64 elements (tags are exactly representable)
@@ -47,8 +62,9 @@ fn pu_events(out: &mut Out, pat: &[bool], len: usize) {
     let p01: Vec<u8> = pat.iter().map(|&b| b as u8).collect();
     let tags: Vec<i64> = (1..=len as i64).collect();
     out.new_case();
-    match guarded(|| Puncturer::new(pat).puncture(&Array1::from_iter(tags.iter().copied()))) {
-        Ok(Ok(y)) => out.ev("Pu", "ok", json!({"pat": p01, "x": tags, "v": "ok", "y": y.to_vec()})),
+    let lay = len + pat.len() + pat.iter().filter(|&&b| b).count();
+    match guarded(|| with_layout(&tags, -7i64, lay, |v| Puncturer::new(pat).puncture(&v))) {
+        Ok(Ok(y)) => out.ev("Pu", "ok", json!({"pat": p01, "x": tags, "v": "ok", "layout": LAYOUTS[lay % 4], "y": y.to_vec()})),
         Ok(Err(_)) => out.ev("Pu", "ok", json!({"pat": p01, "x": tags, "v": "err", "y": []})),
         Err(m) => out.ev("Pu", "panic", json!({"pat": p01, "x": tags, "msg": m})),
     }
